@@ -127,9 +127,10 @@ func (o *Overlay) Process(env *network.Envelope) {
 // io is the messageProxy to use if a specific wireformat protocol is used.
 // It can be nil: in that case it falls back to the default wire protocol.
 func (o *Overlay) TransmitMsg(onetMsg *ProtocolMsg, io MessageProxy) error {
-	if onetMsg != nil && onetMsg.From != nil {
-		log.TraceID(onetMsg.From.RoundID[:])
+	if onetMsg == nil || onetMsg.To == nil || onetMsg.From == nil {
+		return xerrors.New("protocol message without destination or sender token")
 	}
+	log.TraceID(onetMsg.From.RoundID[:])
 	log.Lvl3("got new message of type:", onetMsg.MsgType)
 	// Get the tree if it exists and prevent any pending deletion
 	// if required. The tree will be clean when this instance is
